@@ -156,7 +156,7 @@ Inductive aop :=
 | AAppend (i : nat) (v : Z)               (* T& append(const T&), v a foreign object *)
 | AAppendArr (i j : nat)
 | AAppendBuf (i : nat) (vs : list Z)      (* append(const T*, usize) from a foreign buffer *)
-| ARemoveIdx (i : nat) (k : nat)          (* void remove(usize index): ignores index >= size *)
+| ARemoveIdx (i : nat) (k : nat)          (* void remove(usize index); index >= size: outside the statement, see atext *)
 | ARemoveIt (i : nat) (k : nat)           (* Iterator remove(const Iterator&) *)
 | ARemoveFront (i : nat)
 | ARemoveBack (i : nat)
@@ -207,6 +207,26 @@ Definition aspec (s : sstate) (op : aop) : sstate * res :=
   | AEq i j => (s, RBool (seq_eqb (sget i s) (sget j s)))
   | ANe i j => (s, RBool (negb (seq_eqb (sget i s) (sget j s))))
   end.
+
+(* The calls the statement speaks about.  "Removal by index" of a reference sequence means an index of the
+   sequence: remove(index) with index >= size() has no counterpart there (the iterator forms carry the same
+   condition as a precondition, apre), and the statement leaves open what such a call does.  `aspec` above keeps
+   the sequence as it is for it - that is what the code does (SeqModel.a_remove_idx, theorem
+   array_remove_idx_beyond_size_is_noop), written down only so that a history can be followed beyond such a call; it
+   is NOT part of the specification: `aspec_ok` demands nothing of the call, and the following operations are
+   specified from whatever state it left.  The spec driver prints `open` for it and the check's judge stops
+   judging the case there (the model keeps predicting it: correspondence only). *)
+Definition atext (sz : nat -> nat) (nv : nat) (op : aop) : bool :=
+  match op with
+  | ARemoveIdx i k => negb (Nat.ltb i nv) || Nat.ltb k (sz i)
+  | _ => true
+  end.
+
+Inductive aspec_ok : sstate -> list aop -> list (sstate * res) -> Prop :=
+| aok_nil s : aspec_ok s [] []
+| aok_cons s op s1 r ops tr :
+    (atext (ssize s) (length s) op = true -> aspec s op = (s1, r)) ->
+    aspec_ok s1 ops tr -> aspec_ok s (op :: ops) ((s1, r) :: tr).
 
 Fixpoint aspec_run (s : sstate) (ops : list aop) : list (sstate * res) :=
   match ops with
